@@ -900,6 +900,13 @@ func (m *Monitors) c08State(n *Node, pre, post *raft.VerifState, c *Cause) {
 				m.s.Stats.inc("storage.snapshot_ack_of_older_term")
 			}
 		}
+		// ABA inside one term: the acknowledged (index, term) was replaced
+		// by a different term at the same index after the write was issued
+		if a != nil && a.GetType() == pb.MsgStorageAppendResp && a.GetTerm() == pre.Term && a.GetIndex() != 0 && n.Up {
+			if t, err := n.RN.VerifLogTerm(a.GetIndex()); err == nil && t != a.GetLogTerm() {
+				m.s.Stats.inc("storage.ack_aba_same_term")
+			}
+		}
 	}
 	if n.mon.snapOutstanding == 0 {
 		return
